@@ -3,6 +3,7 @@ import SpiceEv.Wire
 import SpiceEv.Model.StratDistributed
 import SpiceEv.Cmd.Strategies
 import SpiceEv.Cmd.StratPeakShaving
+import SpiceEv.Cmd.StratPeakLoadWindow
 namespace SpiceEv.Cmd.StratDistributed
 open SpiceEv SpiceEv.Distrib SpiceEv.Cmd.Strategies
 
@@ -22,7 +23,12 @@ def pSub : P (SubStrat Float) := do
   let rule ← pRule
   let eps ← P.num Float; let thr ← P.num Float; let tsph ← P.num Float; let interval ← P.int
   let ps ← P.opt (do let h ← P.int; let pf ← P.bool; let fuel ← P.nat; pure (⟨h, pf, fuel⟩ : PSCfg))
-  pure ⟨rule, eps, thr, tsph, interval, ps⟩
+  let plw ← P.opt (do
+    let start ← P.int; let stop ← P.int; let fuel ← P.nat
+    let ops ← SpiceEv.Cmd.StratPeakLoadWindow.pOperators
+    let table ← P.list (P.list SpiceEv.Cmd.StratPeakLoadWindow.pEv)
+    pure (⟨start, stop, fuel, ops, table⟩ : PLWCfg Float))
+  pure ⟨rule, eps, thr, tsph, interval, ps, plw⟩
 
 def pVt : P (VirtVT Float) := do
   let cap ← P.num Float; let cc ← pCurve; let mc ← P.num Float; let eff ← P.num Float
@@ -99,8 +105,16 @@ def cmdStep : P String := do
   let ini := { ini with oppsEvents := oe, depsEvents := dEv }
   let evs ← P.list pEvent
   let fut ← P.list SpiceEv.PeakShaving.Cmd.pEv
+  let nowDt ← Cmd.Util.pDateTime
+  let plwGc ← P.list (do
+    let k ← P.tok; let op ← P.tok; let lvl ← P.opt P.tok; let win ← P.opt P.bool; pure (k, op, lvl, win))
+  let plwVeh ← P.list (do
+    let k ← P.tok; let ps ← P.list (P.num Float); let sch ← P.opt (P.num Float); pure (k, ps, sch))
+  let oPk ← P.list (do let k ← P.tok; let v ← P.num Float; pure (k, v))
+  let dPk ← P.list (do let k ← P.tok; let v ← P.num Float; pure (k, v))
+  let ini := { ini with oppsPeaks := oPk, depsPeaks := dPk }
   let T := Cmd.Battery.hoursOfMicros interval
-  let de : DEnv Float := ⟨⟨eps, thr, tsph, now, interval⟩, T, opps, deps, fut⟩
+  let de : DEnv Float := ⟨⟨eps, thr, tsph, now, interval⟩, T, opps, deps, fut, nowDt, plwGc, plwVeh⟩
   match step (floatDOps T) de ⟨⟨gcs, css, vs, bs⟩, ncs, conn, ini, evs⟩ with
   | .error e => pure (renderErr e)
   | .ok (s, cmds) =>
@@ -112,7 +126,8 @@ def cmdStep : P String := do
       " ".intercalate (w.batteries.map (fun b => rNum b.bat.soc)) ++ " | " ++
       renderList rIdsKV s.connected ++ " | " ++
       " ".intercalate (s.init.virtualCs.map (fun c => rNum c.currentPower)) ++ " | " ++
-      toString s.init.oppsEvents.length ++ " " ++ toString s.init.depsEvents.length)
+      toString s.init.oppsEvents.length ++ " " ++ toString s.init.depsEvents.length ++ " | " ++
+      renderList rKV s.init.oppsPeaks ++ " | " ++ renderList rKV s.init.depsPeaks)
 
 /-- `signal_distributed <n> (signal start)…` → the signal times after `__init__` -/
 def cmdSignal : P String := do
